@@ -325,7 +325,7 @@ def gen_c14_ranges(tier, rng):
         size = rng.randrange(0, 1 << rng.randrange(1, 64))
         n = nchunks(size)
         k = rng.randrange(0, 6)
-        cand = [n - 2, n - 1, n, n + 1, n + 2, 0, 1, M, M - 1, 1 << 63] + [rng.randrange(0, 2 * n + 2) for _ in range(4)]
+        cand = [n - 2, n - 1, n, n + 1, n + 2, 0, 1, M, M - 1, 1 << 63, 1 << 54, (1 << 54) + 1, 3 << 54, (1 << 54) - 1] + [rng.randrange(0, 2 * n + 2) for _ in range(4)]
         q = sorted(set(x for x in rng.sample(cand, min(k, len(cand))) if 0 <= x <= M))
         cases.append(("ranges", [0, size, 0] + q))
     return cases
@@ -1029,7 +1029,7 @@ def gen_c19(tier, rng):
 
     lens = [0, 1, 63, 64, 65, 1024, 16 * 1024] + ([64 * 1024] if tier == "thorough" else [])
     for fmt in (0, 1):
-        for x in [0, 1, 127, 128, 16383, 16384, (1 << 32), (1 << 63), M64] + [node() for _ in range(nrand)]:
+        for x in [0, 1, 127, 128, 16383, 16384, (1 << 32), (1 << 63), (1 << 63) - 1, (1 << 62) - 1, 3 * (1 << 61) - 1, M64 - 1, M64] + [node() for _ in range(nrand)]:
             cases.append(("serde", [0, fmt, x]))
             cases.append(("serde", [1, fmt, x]))
         for _ in range(nrand):
@@ -1501,6 +1501,12 @@ for _p in ("C04", "C05", "C08"):
     _with(_p, [F_ENCODE], lambda tier, rng: gen_odd_providers(tier, random.Random(rng.randrange(1 << 30))),
           "encode: providers whose data file is a group-aligned prefix of the blob, or longer than the blob, with the complete outboard: "
           "all five encoders send exactly what a complete provider would, up to the first group they do not hold.")
+for _p in ("C12", "C13"):
+    _with(_p, [F_SHORTW], lambda tier, rng: [c for c in gen_shortw(tier, random.Random(rng.randrange(1 << 30))) if c[1][4] == 2],
+          "shortw: outboard_post_order into sinks that take few bytes per call or fill up (every pair lands in its slot, or the error surfaces).")
+_with("C13", [F_FAULT], lambda tier, rng: [c for c in gen_c10(tier, random.Random(rng.randrange(1 << 30)))
+                                         if c[0] == "fault" and c[1][4] in (1, 9) and c[1][6] == 0],
+      "fault (fault-free runs only): the call sequence of init_from on an io-backed outboard, incl. the final flush of the store.")
 _with("C04", [F_SHORTW], lambda tier, rng: [c for c in gen_shortw(tier, random.Random(rng.randrange(1 << 30)))
                                           if c[1][4] in (0, 1, 3, 5) and c[1][6] == BIGCAP],
       "shortw: the sync encoders writing into sinks that take few bytes per call and reading data / outboard through stores with short positioned reads.")
